@@ -237,7 +237,7 @@ struct Driver {
   bool is_f5_trigger(const Model& md, const RefState& rs, int i) {
     if constexpr (ru && !bar) {
       if (!(rs.positive(i) && !rs.positive(i + 1) && md.f[size_t(i)].dim == md.f[size_t(i) + 1].dim)) return false;
-      if constexpr (has_u) return !m->is_zero_entry(U(i), rid[size_t(i) + 1], false);
+      if constexpr (has_u) return !m->is_zero_entry(U(i), U(i + 1), false);  // rows of the stored U are positions
       return true;
     }
     return false;
@@ -657,7 +657,7 @@ struct Driver {
   bool z_eq_1_applies(const Model& md, int i) {
     if (md.f[size_t(i)].dim != md.f[size_t(i) + 1].dim) return false;
     if constexpr (api == Api::RU_POS) {
-      return !m->is_zero_entry(U(i), rid[size_t(i) + 1], false);
+      return !m->is_zero_entry(U(i), U(i + 1), false);  // rows of the stored U are positions
     } else if constexpr (api == Api::RU_ID) {
       return false;  // U is not readable
     } else {
@@ -808,8 +808,11 @@ inline MCell propose_cell(vf::Tape& t, const Model& md, const RefState& rs, int 
     if (md.f[size_t(p)].dim == 0) verts.push_back(p);
   unsigned kind = unsigned(t.weighted({4, 6, 5, 1, 1}));
   if (kind == 1 && verts.size() >= 2) {  // edge between two distinct vertices (parallel edges allowed: a cell complex)
-    int a = t.pick(verts), b = t.pick(verts);
-    if (a == b) b = verts[(size_t(std::find(verts.begin(), verts.end(), a) - verts.begin()) + 1) % verts.size()];
+    // half of the time among the three oldest vertices: dense multigraphs (parallel edges, long reduction chains)
+    std::vector<int> pool = verts;
+    if (t.flip() && pool.size() > 3) pool.resize(3);
+    int a = t.pick(pool), b = t.pick(pool);
+    if (a == b) b = pool[(size_t(std::find(pool.begin(), pool.end(), a) - pool.begin()) + 1) % pool.size()];
     c.dim = 1;
     c.bd = {md.f[size_t(a)].uid, md.f[size_t(b)].uid};
     return c;
@@ -920,6 +923,7 @@ void run(vf::Tape& t, vf::Ctx& ctx) {
   A->check_full(md, rs, "after construction");
 
   bool swapped = false, removal_after_swap = false, pairing_change = false;
+  int last_swap = -1;
   int steps = 0;
   const bool f3 = O::is_of_boundary_type && ctx.excluded("C06-ru-removal-stale-u");
   const bool f16 = D::need_cmp && ctx.excluded("C06-chain-nobarcode-sign-by-id");
@@ -941,8 +945,12 @@ void run(vf::Tape& t, vf::Ctx& ctx) {
       ctx.hit("excluded:C06-ru-removal-stale-u:stop");
       break;
     }
+    // op-code first; code 0 ends the history so that trailing zero bytes decode like an exhausted tape (the shrinker
+    // drops them)
+    unsigned opc = unsigned(t.weighted({1, 10, 3, 4, 3, 2, 1, 1}));
+    if (opc == 0) break;
     ++steps;
-    unsigned op = unsigned(t.weighted({10, 3, 4, 3, 2, 1, 1}));
+    unsigned op = opc - 1;
     bool full = t.chance(1, 3);
     std::ostringstream when;
     when << "after step " << steps;
@@ -950,32 +958,61 @@ void run(vf::Tape& t, vf::Ctx& ctx) {
     if (op == 0 || op == 1) {  // transposition
       if (md.n() >= 2) {
         int start = int(t.below(U(md.n() - 1))), i = -1;
+        // local walks: often continue next to the previous transposition (the same pair again, or its neighbours) - this
+        // is what reaches the non-trivial mixed-sign cases and moves single cells far
+        if (last_swap >= 0 && t.chance(2, 5)) {
+          start = last_swap + int(t.below(3)) - 1;
+          if (start < 0) start = 0;
+          if (start > md.n() - 2) start = md.n() - 2;
+          ctx.hit("swap:local");
+        }
         bool guard = ctx.excluded("C06-ru-pivot-map-size");
-        for (int k = 0; k < md.n() - 1; ++k) {
-          int cand = (start + k) % (md.n() - 1);
-          if (!md.swappable(cand)) continue;
+        auto admissible = [&](int cand) {
+          if (!md.swappable(cand)) return false;
           if (guard && !(A->swap_in_pmap(cand) && (!F || F->swap_in_pmap(cand)))) {
             ctx.hit("excluded:C06-ru-pivot-map-size");
-            continue;
+            return false;
           }
           if (f13 && ((A->mat[size_t(cand)] > A->mat[size_t(cand) + 1]) ||
                       (F && F->mat[size_t(cand)] > F->mat[size_t(cand) + 1]))) {
             ctx.hit("excluded:C06-chain-id-swap-return");
-            continue;
+            return false;
           }
           if (f16 && (A->is_f16_trigger(rs, cand) || (F && F->is_f16_trigger(rs, cand)))) {
             ctx.hit("excluded:C06-chain-nobarcode-sign-by-id");
-            continue;
+            return false;
           }
           if (f5 && (A->is_f5_trigger(md, rs, cand) || (F && F->is_f5_trigger(md, rs, cand)))) {
             ctx.hit("excluded:C06-ru-nobarcode-pos-neg-swap");
-            continue;
+            return false;
           }
-          i = cand;
-          break;
+          return true;
+        };
+        // one time in three: go for the rarest kind of transposition available (non-trivial branch of vine_swap, mixed or
+        // negative signs first), as far as the public interface tells
+        bool hunt = t.chance(1, 3);
+        int best = -1;
+        for (int k = 0; k < md.n() - 1; ++k) {
+          int cand = (start + k) % (md.n() - 1);
+          if (!admissible(cand)) continue;
+          if (!hunt) {
+            i = cand;
+            break;
+          }
+          int score = 0;
+          if (A->z_eq_1_applies(md, cand)) {
+            bool p0 = rs.positive(cand), p1 = rs.positive(cand + 1);
+            score = (p0 && !p1) ? 4 : ((!p0 && !p1) ? 3 : ((p0 && p1) ? 2 : 1));
+          }
+          if (score > best) {
+            best = score;
+            i = cand;
+          }
         }
+        if (hunt && i >= 0) ctx.hit("swap:hunt");
         if (i >= 0) {
-          bool z1 = (op == 1) && A->z_eq_1_applies(md, i) && (!F || F->z_eq_1_applies(md, i));
+          bool nontriv = A->z_eq_1_applies(md, i);  // vine_swap will take its non-trivial branch (false: trivial or unknown)
+          bool z1 = (op == 1) && nontriv && (!F || F->z_eq_1_applies(md, i));
           Model after = md;
           std::swap(after.f[size_t(i)], after.f[size_t(i) + 1]);
           RefState rs2 = reference(after);
@@ -1002,9 +1039,11 @@ void run(vf::Tape& t, vf::Ctx& ctx) {
           ctx.desc << "\n";
           ctx.hit(std::string("swap:") + cls + (kept_ok && exch_ok ? ":ambiguous" : (kept_ok ? ":kept" : ":exchanged")));
           if (z1) ctx.hit("swap:z_eq_1");
+          if (nontriv) ctx.hit(std::string("swap-nontrivial:") + cls);
           if (!kept_ok) pairing_change = true;
           md = after;
           rs = rs2;
+          last_swap = i;
           swapped = true;
           did = true;
         }
